@@ -3,7 +3,8 @@
    call set are explicit inputs of `generate`.  ./check C05 runs every program under permutations of its
    definitions, with unrelated definitions added, a second generation in the same process, and as real
    subprocesses under several PYTHONHASHSEED values. *)
-From RattrV Require Import Base Str Context CallSwaps PyBind FuncAn Results ResCheck Closure ResSpecCheck ResProofs.
+From RattrV Require Import Base Str ModNames Context CallSwaps PyBind FuncAn Results ResCheck Closure ResSpecCheck ResProofs RootCtx RootCheck RootSpec RootProofs.
+From Coq Require Import Permutation.
 Open Scope string_scope.
 Open Scope list_scope.
 
@@ -33,3 +34,18 @@ Theorem C05_earlier_generations_only_add :
   forall nodes s s', fold_tree nodes s = Some s' -> store_incl s s'.
 Proof. exact fold_tree_grows. Qed.
 Print Assumptions C05_leaf_functions_order_independent.
+
+(* ---------- the analysis phase: the root context does not depend on where a definition stands ---------- *)
+(* model/RootCtx.v.  For a module that offers every name once and neither deletes nor star-imports (the boolean
+   premises are spec/RootSpec.v order_premises, evaluated per generated module), ANY reordering of the top-level
+   statements is registered without a fatal diagnostic exactly when the original is, and gives every name the same
+   symbol: forward references and reordered definitions resolve alike.  ./check C05 re-analyses such modules with
+   their statements reversed and shuffled and compares the symbol tables. *)
+Theorem C05_root_context_independent_of_statement_order :
+  forall locatable blacklisted base is_init stmts stmts' sc sc1,
+    Permutation stmts stmts' ->
+    forallb plain_stmt stmts && nodupb (map s_name (flat_map (binds base is_init) stmts)) = true ->
+    regs locatable blacklisted base is_init stmts sc = ROk sc1 ->
+    exists sc2, regs locatable blacklisted base is_init stmts' sc = ROk sc2 /\ forall n, scope_get sc2 n = scope_get sc1 n.
+Proof. exact root_context_independent_of_statement_order_b. Qed.
+Print Assumptions C05_root_context_independent_of_statement_order.
